@@ -197,6 +197,64 @@ class Counter:
         return out
 
 
+def entries_depths(f, root):
+    """[(depth, ast.Attribute)] for every load of `<x>.entries` in f whose receiver is reached from `root` through bin slots
+    (`.values` / `.bins`): depth 1 = a sub-histogram of the root (an x-slice), depth 2 = an inner-most bin."""
+    env = {root: 0}
+    out = []
+
+    def d(e):
+        if isinstance(e, ast.Name):
+            return env.get(e.id)
+        if isinstance(e, ast.Attribute):
+            b = d(e.value)
+            if e.attr in ("values", "bins") and isinstance(b, int):
+                return ("slot", b)
+            return None
+        if isinstance(e, ast.Call):
+            if isinstance(e.func, ast.Name) and e.func.id in ("enumerate", "list", "dict", "sorted", "reversed", "tuple") and e.args:
+                return d(e.args[0])
+            if isinstance(e.func, ast.Attribute) and e.func.attr in ("items", "values", "keys") and not e.args:
+                return d(e.func.value)
+            return None
+        if isinstance(e, ast.Subscript):
+            b = d(e.value)
+            if isinstance(b, tuple):
+                return b[1] + 1
+            if isinstance(b, int) and isinstance(e.slice, ast.Constant):
+                return b      # second element of a (threshold, aggregator) pair
+            return None
+        return None
+
+    def bind(t, it):
+        b = d(it)
+        if not isinstance(b, tuple):
+            return
+        el = b[1] + 1
+        if isinstance(t, ast.Name):
+            env[t.id] = el
+        elif isinstance(t, ast.Tuple) and t.elts and isinstance(t.elts[-1], ast.Name):
+            env[t.elts[-1].id] = el
+
+    for _ in range(4):
+        for n in ast.walk(f.node):
+            if isinstance(n, ast.For):
+                bind(n.target, n.iter)
+            elif isinstance(n, (ast.ListComp, ast.GeneratorExp, ast.SetComp, ast.DictComp)):
+                for g in n.generators:
+                    bind(g.target, g.iter)
+            elif isinstance(n, ast.Assign) and len(n.targets) == 1 and isinstance(n.targets[0], ast.Name):
+                b = d(n.value)
+                if b is not None:
+                    env[n.targets[0].id] = b
+    for n in ast.walk(f.node):
+        if isinstance(n, ast.Attribute) and n.attr == "entries" and isinstance(n.ctx, ast.Load):
+            b = d(n.value)
+            if isinstance(b, int):
+                out.append((b, n))
+    return out
+
+
 def helper_positions(repo, c, hname, slots):
     """For a helper returning a tuple: position -> Rat over the symbols '#j' of the positions that are plain locals."""
     h = repo.lookup(c, hname)
@@ -398,6 +456,99 @@ def run(repo, rep, tier):
                     if not ok:
                         rep.finding("R13.3", bc, n, "bin_centers is not the midpoint `(bin_edges[:-1] + bin_edges[1:]) / 2` of consecutive "
                                     "edges", stmt="centre formula")
+    # ---------------- R13.4: 2-D grids and projections read inner-most bins only (exactly the in-range weights)
+    r4 = rep.rule("R13.4", "2-D grids/projections sum entries of inner-most bins only (never a slice total or a flow)", floor=10)
+    two_d = []
+    for mname in ("histogrammar.plot.matplotlib",):
+        mod = repo.modules.get(mname)
+        if mod is None:
+            raise AnalysisError(f"{mname} not found")
+        for k in mod.classes.values():
+            if "TwoDimensionally" in k.name:
+                for fn in ("xy_ranges_grid", "project_on_x", "project_on_y"):
+                    if fn in k.methods:
+                        two_d.append((k.methods[fn], k.methods[fn].params[0]))
+    hn = repo.modules.get("histogrammar.plot.hist_numpy")
+    if hn is None:
+        raise AnalysisError("histogrammar.plot.hist_numpy not found")
+    for fn in ("set_2dgrid", "set2Dsparse"):
+        if fn in hn.functions:
+            two_d.append((hn.functions[fn], hn.functions[fn].params[0]))
+    for f, root in two_d:
+        rep.analysed_functions.add(f.construct)
+        for depth, node in entries_depths(f, root):
+            ok = depth == 2
+            r4.ob(ok, f"{f.qualname}: `{ast.unparse(node)}` reads an inner-most bin" if ok else f"{f.qualname}: `{ast.unparse(node)}` depth {depth}")
+            if not ok:
+                rep.finding("R13.4", f, node, f"`{ast.unparse(node)}` is the total of a whole {'x-slice' if depth == 1 else 'histogram'} (it includes the "
+                            f"slice's underflow/overflow/nanflow weight), not an inner-most bin: the 2-D grid/projection no longer "
+                            f"contains exactly the in-range weights", stmt=f"entries at depth {depth}: {ast.unparse(node)}")
+    # ---------------- R13.5: the edge formula is written several times (range(), isclose corrections, edges): one affine function
+    r5 = rep.rule("R13.5", "every edge expression of Bin/SparselyBin is the class's own edge function of its index", floor=6)
+    for cname in ("Bin", "SparselyBin"):
+        c = repo.cls(cname)
+        rng = repo.lookup(c, "range")
+        if not isinstance(rng, FuncInfo):
+            raise AnalysisError(f"{cname}.range not found")
+        sn = rng.params[0]
+
+        def resolver(e, env, c=c):
+            """inline zero-argument helper methods / properties whose body is a single return"""
+            if isinstance(e, ast.Call) and isinstance(e.func, ast.Attribute) and isinstance(e.func.value, ast.Name) and not e.args:
+                m = repo.lookup(c, e.func.attr)
+                if isinstance(m, FuncInfo):
+                    body = [x for x in m.node.body if not (isinstance(x, ast.Expr) and isinstance(x.value, ast.Constant))]
+                    if len(body) == 1 and isinstance(body[0], ast.Return):
+                        return formula(body[0].value, {}, resolver)
+            if isinstance(e, ast.Call) and isinstance(e.func, ast.Name) and e.func.id == "len":
+                return Rat.sym("len(" + ast.unparse(e.args[0]).replace(" ", "") + ")")
+            raise Unsupported(f"call {ast.unparse(e)}")
+
+        def edge_formula(expr, c=c):
+            # properties read as attributes (self.num) are expanded as well
+            class Prop(ast.NodeTransformer):
+                def visit_Attribute(self, n):
+                    self.generic_visit(n)
+                    if isinstance(n.value, ast.Name):
+                        m = repo.lookup(c, n.attr)
+                        if isinstance(m, FuncInfo) and m.is_property:
+                            body = [x for x in m.node.body if not (isinstance(x, ast.Expr) and isinstance(x.value, ast.Constant))]
+                            if len(body) == 1 and isinstance(body[0], ast.Return):
+                                return Prop().visit(copy.deepcopy(body[0].value))
+                    return n
+            import copy
+            return formula(Prop().visit(copy.deepcopy(expr)), {}, resolver)
+
+        rets = [n.value for n in walk_local_stmt(rng.node) if isinstance(n, ast.Return) and isinstance(n.value, ast.Tuple)]
+        if not rets:
+            raise AnalysisError(f"{cname}.range does not return a tuple")
+        try:
+            canon = edge_formula(rets[0].elts[0]).rename({rng.params[1]: "K"})
+            canon_hi = edge_formula(rets[0].elts[1]).rename({rng.params[1]: "K"})
+        except Unsupported as e:
+            raise AnalysisError(f"{cname}.range: {e}")
+        ok = canon_hi.equals(canon.subst({"K": Rat.sym("K") + Rat.const(1)}))
+        r5.ob(ok, f"{cname}.range: upper edge of bin K == lower edge of bin K+1")
+        if not ok:
+            rep.finding("R13.5", rng, rng.node, f"{cname}.range(index): the upper edge {canon_hi!r} is not the lower edge of the next bin",
+                        stmt="range edges")
+        for f in c.methods.values():
+            for n in walk_local_stmt(f.node):
+                if isinstance(n, ast.Call) and (call_name(n) or "").split(".")[-1] == "isclose" and len(n.args) >= 2:
+                    e = n.args[1]
+                    idx = [x.id for x in ast.walk(e) if isinstance(x, ast.Name) and x.id not in (f.params[0],)]
+                    if len(set(idx)) != 1:
+                        continue
+                    try:
+                        got = edge_formula(e).rename({idx[0]: "K"})
+                    except Unsupported as ex:
+                        raise AnalysisError(f"{f.construct}: {ex}")
+                    ok = got.equals(canon)
+                    r5.ob(ok, f"{f.qualname}: isclose(..., {ast.unparse(e)}) is the lower edge of bin {idx[0]}")
+                    if not ok:
+                        rep.finding("R13.5", f, n, f"`{ast.unparse(e)}` is compared with a query bound as if it were the lower edge of bin "
+                                    f"`{idx[0]}`, but the class's edge function (from range()) is {canon!r}: the on-edge correction fires for "
+                                    f"the wrong values, so sub-range views disagree with the bins fill uses", stmt=f"edge expression {ast.unparse(e)}")
     cat = [c for c in prims if c.name == "Categorize"][0]
     srcs = {}
     for an in ("bin_entries", "bin_labels"):
